@@ -387,11 +387,16 @@ def _eval_frameworks(case, real_optimize=False):
         labels_c, _ = synth.build_labels(spec, d + "/src")
         got = {}
         ds_a = runner.guarded(res, f"frameworks:{kind}:mem:construct", _make_dataset, kind, labels_a, cfg, False, d + "/unused")
+        second = int(case.get("epochs", 1)) >= 2  # judge the SECOND pass over each dataset (epoch 2 of a training run)
         if ds_a is not runner.FAILED:
             got["mem"] = _read_all(res, f"frameworks:{kind}:mem", ds_a)
+            if second and got["mem"] is not None:
+                got["mem"] = _read_all(res, f"frameworks:{kind}:mem:second-pass", ds_a)
         ds_b = runner.guarded(res, f"frameworks:{kind}:npz:construct", _make_dataset, kind, labels_b, cfg, True, d + "/npz")
         if ds_b is not runner.FAILED:
             got["npz"] = _read_all(res, f"frameworks:{kind}:npz", ds_b)
+            if second and got["npz"] is not None:
+                got["npz"] = _read_all(res, f"frameworks:{kind}:npz:second-pass", ds_b)
         # ---- litdata path, fed like get_bin_files.py feeds it (label order, (lf, video index))
         fn = _chunk_fn(kind, labels_c, cfg)
         inputs, n_all_empty = [], 0
@@ -414,6 +419,8 @@ def _eval_frameworks(case, real_optimize=False):
             ds_c = runner.guarded(res, f"frameworks:{kind}:stream:construct", _stream_dataset, kind, cfg, labels_c.skeletons[0].edge_inds, d + "/bin")
             if ds_c is not runner.FAILED:
                 got["stream"] = _read_all(res, f"frameworks:{kind}:stream", ds_c)
+                if second and got["stream"] is not None:
+                    got["stream"] = _read_all(res, f"frameworks:{kind}:stream:second-pass", ds_c)
         got = {k: _keyed(v) for k, v in got.items() if v is not None}
 
         # ---- classes / flags
@@ -439,6 +446,7 @@ def _eval_frameworks(case, real_optimize=False):
         fr_ = spec["frames"]
         if any(a["video"] != b["video"] and a["frame_idx"] == b["frame_idx"] for a, b in zip(fr_, fr_[1:])):
             res.cls("adjacent-frames:same-index-different-video")
+        res.cls("pass=second" if second else "pass=first")
         if has_empty:
             res.cls("has-empty-instance")
         if n_all_empty:
@@ -623,7 +631,9 @@ def strategy_frameworks(fixed_kind=None, fixed_scale_class=None):
             "scale": scale, "max_hw": max_hw, "hw_class": hw_class, "hw_route": hw_route, "crop": draw(st.sampled_from([24, 32, 40])),
         }
         spec = {"skeleton": {"n_nodes": n_nodes, "edges": [[i, i + 1] for i in range(n_nodes - 1)]}, "videos": videos, "frames": frames}
-        return {"kind": kind, "spec": spec, "cfg": cfg}
+        # half of the cases compare what the frameworks return on a second pass over the data (state written back
+        # by the first pass - caches, in-place edits - shows there)
+        return {"kind": kind, "spec": spec, "cfg": cfg, "epochs": draw(st.sampled_from([1, 2]))}
 
     return case()
 
